@@ -222,7 +222,7 @@ func runC13(c *Ctx) {
 	sharedHandle(c, "R3", p.MustMethod("gossip", "Message", "Encode"), p.MustMethod("gossip", "Message", "Decode"))
 	raftLogCodecHandle(c, "R3")
 	hasherFactoriesAreFresh(c, "R3", []string{"client", "consensus", "server", "cmd", "protocol"})
-	noPooledAlias(c, "R3", []string{"gossip", pkgConsensus, "protocol", "server"})
+	poolEscapes(c, "R3", []string{"gossip", pkgConsensus, "protocol", "server", "api/apihttp", "client", "balloon", "balloon/history", "balloon/hyper"})
 	// --- R4
 	for _, k := range []struct{ pkg, typ string }{{"protocol", "MembershipResult"}, {"protocol", "IncrementalResponse"}, {"protocol", "Snapshot"}, {"protocol", "SignedSnapshot"}, {"protocol", "BatchSnapshots"}, {"gossip", "Message"}} {
 		n := p.NamedType(k.pkg, k.typ)
